@@ -104,7 +104,8 @@ Proof.
     { split; [exact Hr0|]. exists fr. auto. }
     assert (HIa : MInv p rk sB (X ++ []) inp s) by (rewrite app_nil_r; exact HI).
     destruct (IHq inp X [] stk (CQuery n true pd prev) (Some fr) n0 s o1 fr2 m2 s2 HIa Hs0 (fun K => ltac:(discriminate K))
-                Hpd Hpre Hpx (or_introl eq_refl) E1) as (HI1 & K1 & -> & i & Hi & Hv & Ho & Hf).
+                Hpd Hpx (or_introl eq_refl) E1) as (HI1 & K1 & -> & i & Hi & Hv & HP).
+    destruct (HP Hpre) as [Ho Hf].
     specialize (K1 eq_refl).
     pose proof (Mq _ _ _ _ _ _ _ _ _ E1) as M1.
     specialize (Hf fr (or_introl eq_refl)). subst o1 fr2. cbv zeta in H.
@@ -560,7 +561,7 @@ Lemma msound_query_step : forall f,
   msound_query p rk sB (S f).
 Proof.
   intros f IHq IHx IHr IHb. destruct (mmono_all p f) as (Mq & Mx & Me & Mr & Mb).
-  red. intros inp X Y stk c fr n s o fr' ms s' HI Hstk Hroot Hnp Hpre Hxm HY H.
+  red. intros inp X Y stk c fr n s o fr' ms s' HI Hstk Hroot Hnp Hxm HY H.
   rewrite query_for_S in H. cbv zeta in H.
   rewrite mq_reg_caller in H.
   destruct (mq_reg c fr n) as [fr1| | |] eqn:Er; try discriminate.
@@ -581,7 +582,7 @@ Proof.
     assert (EY : Y = []) by (apply (HYnil s v fr2 Ef); destruct HY as [K|(K1 & _ & K2 & _)]; auto).
     subst Y. rewrite app_nil_r in HI.
     inversion H. subst. split; [exact HI|]. split; [intros _; apply MKeeps_refl|]. split; [reflexivity|].
-    exists i. split; [exact Hi|]. split; [exact Hv|]. eapply mhit_post; eauto. }
+    exists i. split; [exact Hi|]. split; [exact Hv|]. intro Hpre. eapply mhit_post; eauto. }
   pose proof (fast_path_slow _ _ _ _ _ _ Ef) as Hsp.
   destruct (mq_tfc p f stk c' sp n s) as [s1| | |] eqn:Et; try discriminate.
   (* the TFC repair *)
@@ -692,7 +693,7 @@ Proof.
     subst Y2. rewrite app_nil_r in HI2.
     cbv zeta in H. rewrite frame_mark_if_nil in H.
     inversion H. subst. split; [exact HI2|]. split; [exact K12|]. split; [reflexivity|].
-    exists i. split; [exact Hi|]. split; [exact Hv|].
+    exists i. split; [exact Hi|]. split; [exact Hv|]. intro Hpre.
     assert (Hpre2 : MFrPre rk c fr n s').
     { destruct c as [|b rv pd prev| |]; cbn [MFrPre] in *; auto. destruct rv; [|exact Hpre].
       destruct Hpre as [Hr [x [Hx Hfr]]]. split; [exact Hr|]. exists x. split; [eapply MFrOk_mono; [exact M12|exact Hx]|exact Hfr]. }
@@ -700,18 +701,19 @@ Proof.
   - destruct (mquery f stk c' (fq_reg c fr n) n s2) as [[[[o3 fr3] m3] s3]| | |] eqn:Eq; try discriminate.
     rewrite frame_mark_if_nil in H. injection H as E1 E2 E3 E4. subst o fr' ms s'.
     assert (Hnp2 : MNPq c' n s2) by (eapply MNPq_retry; eauto).
-    assert (Hpre2 : MFrPre rk c' (fq_reg c fr n) n s2).
-    { rewrite <- (fq_reg_caller c n s fr). eapply MFrPre_retry; eauto. }
     assert (HY2 : QPreS c' n Y2 s2).
     { unfold QPreS. rewrite Hfo'. destruct HY2p as [K|K]; [left; exact K|].
       destruct (c_follow c) eqn:Efo; [right; auto|left; auto]. }
-    destruct (IHq inp X Y2 stk c' (fq_reg c fr n) n s2 o3 fr3 m3 s3 HI2 Hstk Hroot' Hnp2 Hpre2 Hxm' HY2 Eq)
+    destruct (IHq inp X Y2 stk c' (fq_reg c fr n) n s2 o3 fr3 m3 s3 HI2 Hstk Hroot' Hnp2 Hxm' HY2 Eq)
       as (HI3 & K3 & -> & i & Hi & Hv & HP).
     assert (M3 : MonoR stk s2 s3) by (eapply Mq; eauto).
     split; [exact HI3|]. split.
     { intro K. eapply MKeeps_trans; [exact HI|exact M12|exact (K12 K)|]. apply K3. unfold c'. rewrite is_cq_caller. exact K. }
     split; [reflexivity|].
-    exists i. split; [exact Hi|]. split; [exact Hv|].
+    exists i. split; [exact Hi|]. split; [exact Hv|]. intro Hpre.
+    assert (Hpre2 : MFrPre rk c' (fq_reg c fr n) n s2).
+    { rewrite <- (fq_reg_caller c n s fr). eapply MFrPre_retry; eauto. }
+    specialize (HP Hpre2).
     eapply MQPost_retry. rewrite <- (fq_reg_caller c n s fr) in HP. exact HP.
 Qed.
 
